@@ -61,6 +61,10 @@ func (f iterFam) source() string {
 	case "nilyield":
 		// the first yielded value is nil: it is still the value of this `next`
 		return fmt.Sprintf("<{|i| S(%d); yield (i if false) if i < %d; yield 777; recur(i + %d)}>", s, l, d)
+	case "kwonly":
+		// no positional parameter at all; a bare `recur()` is still the most recent recur: the
+		// keyword goes back to its default
+		return fmt.Sprintf("<{|k: %d| S(%d); yield k if k < %d; recur()}>", d, s, l)
 	case "localstate":
 		// progress kept in a body-local variable (seeded from the session's `seen0`), no recur:
 		// judged only by comparing fresh iterators with each other (what persists between two
@@ -365,6 +369,13 @@ func (f iterFam) nextInt(st iterState, fault bool) (val int64, stop bool, errore
 			return st.i * 10, false, false, adv
 		}
 		return 0, true, false, st
+	case "kwonly":
+		if st.i < f.lim {
+			ns = st
+			ns.i = f.step // recur() without arguments: k takes its default again
+			return st.i, false, false, ns
+		}
+		return 0, true, false, st
 	case "noguard":
 		return st.i, false, false, adv
 	case "recurfirst", "slotafterrecur":
@@ -387,7 +398,7 @@ func (f iterFam) nextInt(st iterState, fault bool) (val int64, stop bool, errore
 }
 
 func (f iterFam) finite() bool {
-	return f.guard && f.recur && f.step >= 1 && f.kind != "localstate" && f.kind != "argvars"
+	return f.guard && f.recur && f.step >= 1 && f.kind != "localstate" && f.kind != "argvars" && f.kind != "kwonly"
 }
 
 type C14Stats struct {
@@ -489,7 +500,7 @@ func (c *c14Check) Run(seed, run uint64, rec []uint32, st Stats, only *Viol) []V
 	}
 	s.Histories++
 	// 1..2 generator literals
-	kinds := []string{"guard", "noguard", "recurfirst", "twoyields", "norecur", "kw", "slotafterrecur", "implicit", "implicit2", "falsyyield", "twoparam", "nilyield", "localstate", "argvars", "gen", "gen", "gen", "gen", "gen", "gen"}
+	kinds := []string{"guard", "noguard", "recurfirst", "twoyields", "norecur", "kw", "slotafterrecur", "implicit", "implicit2", "falsyyield", "twoparam", "nilyield", "localstate", "argvars", "kwonly", "gen", "gen", "gen", "gen", "gen", "gen"}
 	nf := 1 + t.Intn(2)
 	fams := make([]iterFam, nf)
 	env := object.NewEnclosedEnv(c.it.Global)
@@ -580,6 +591,9 @@ func (c *c14Check) Run(seed, run uint64, rec []uint32, st Stats, only *Viol) []V
 				stt.j = fmt.Sprint(40 + t.Intn(9))
 				line = fmt.Sprintf("%s := g%d.new(%d, %s)", name, fi, arg, stt.j)
 			}
+			if f.kind == "kwonly" {
+				line = fmt.Sprintf("%s := g%d.new(k: %d)", name, fi, arg)
+			}
 			if f.kind == "argvars" && t.Chance(1, 2) {
 				line = fmt.Sprintf("%s := g%d.new(%d, %d)", name, fi, arg, 40+t.Intn(9))
 			}
@@ -629,7 +643,11 @@ func (c *c14Check) Run(seed, run uint64, rec []uint32, st Stats, only *Viol) []V
 				fail("new-from-handle", f.kind, "error", "an iterator", describe(r))
 				break
 			}
-			handles = append(handles, iterState{fam: h.fam, i: arg, step: f.step, j: "nil", k: kState{v: genKDefault}, jj: kState{isNil: true}})
+			st2 := iterState{fam: h.fam, i: arg, step: f.step, j: "nil", k: kState{v: genKDefault}, jj: kState{isNil: true}}
+			if f.kind == "kwonly" {
+				st2.i = f.step // no positional parameter: the argument is ignored, k has its default
+			}
+			handles = append(handles, st2)
 			bind(name, len(handles)-1)
 		case 2: // next, possibly with the body's slot raising
 			name := pickName()
